@@ -433,8 +433,34 @@ impl Sandbox {
     }
 }
 
+thread_local! {
+    /// when set, a command started without stdin bytes gets a pseudo-terminal as its standard
+    /// input (stdout and stderr stay captured pipes): "typed at a terminal, output redirected"
+    pub static STDIN_TTY: std::cell::Cell<bool> = const { std::cell::Cell::new(false) };
+}
+
+fn open_pty() -> Option<(std::fs::File, std::fs::File)> {
+    use std::os::unix::io::FromRawFd;
+    let (mut m, mut s) = (0 as libc::c_int, 0 as libc::c_int);
+    let rc = unsafe { libc::openpty(&mut m, &mut s, std::ptr::null_mut(), std::ptr::null_mut(), std::ptr::null_mut()) };
+    if rc != 0 {
+        return None;
+    }
+    unsafe { Some((std::fs::File::from_raw_fd(m), std::fs::File::from_raw_fd(s))) }
+}
+
 pub fn run_with_timeout(mut cmd: Command, stdin: Option<&[u8]>, timeout: Duration) -> Out {
-    cmd.stdin(if stdin.is_some() { Stdio::piped() } else { Stdio::null() });
+    let mut _pty_master: Option<std::fs::File> = None;
+    if stdin.is_none() && STDIN_TTY.with(|c| c.get()) {
+        if let Some((m, sl)) = open_pty() {
+            cmd.stdin(Stdio::from(sl));
+            _pty_master = Some(m);
+        } else {
+            cmd.stdin(Stdio::null());
+        }
+    } else {
+        cmd.stdin(if stdin.is_some() { Stdio::piped() } else { Stdio::null() });
+    }
     cmd.stdout(Stdio::piped());
     cmd.stderr(Stdio::piped());
     let mut child = match cmd.spawn() {
